@@ -40,6 +40,7 @@ struct State {
   next_id: [u64; 8],
   allocs: u64,
   cls: [bool; 16],
+  echo: bool,
 }
 
 thread_local! {
@@ -89,6 +90,7 @@ pub fn start(cfg: Config) {
       next_id: [0; 8],
       allocs: 0,
       cls,
+      echo: std::env::var_os("LVH_ECHO").is_some(),
     })
   });
   ON.with(|on| on.set(true));
@@ -132,6 +134,9 @@ pub fn emit(class: usize, event: String) {
     if let Some(state) = s.borrow_mut().as_mut() {
       if !state.cls[class] {
         return;
+      }
+      if state.echo {
+        eprintln!("[verif] {event}");
       }
       if state.cfg.max_events != 0 && state.events.len() >= state.cfg.max_events {
         state.dropped += 1;
